@@ -31,6 +31,9 @@ BODIES_QUICK = [
     ("sleep-raise-kbd", [("sleep", 120), ("raise", "KeyboardInterrupt")]),
     ("exit", [("sleep", 120), ("raise", "SystemExit")]),
     ("other-stream", [("other", "work 1"), ("sleep", 120), ("other", "work 2")]),
+    # the body announces the end message itself: at once, and after the spinner has gone round once (4 values, 100 ms each)
+    ("msg-end", [("msg", "End")]),
+    ("sleep4-msg-end", [("sleep", 420), ("msg", "End")]),
 ]
 BODIES_THOROUGH = BODIES_QUICK + [
     ("three-msgs", [("msg", "M1"), ("sleep", 50), ("msg", "Second message"), ("msg", "M3")]),
@@ -77,6 +80,8 @@ def run_one(cfg, choices):
         other = Output(Stream("out"), PlainFormatter())
         if cfg.get("verbose"):
             err.set_verbosity(1)
+        if cfg.get("quiet"):
+            err.set_quiet(True)
         ind = pi.ProgressIndicator(err, interval=cfg["interval"])
 
         def body():
@@ -134,7 +139,11 @@ def judge(cfg, s, exc, alive):
         else:
             continue
         break
-    if not raises and not vs:
+    if cfg.get("quiet"):
+        wrote = [t for (_tid, tag, t) in s.log if tag == "err"]
+        if wrote and not vs:
+            vs.append(report.viol("quiet:bytes-written", "the indicator wrote to a quiet output", {}, [], wrote[:3]))
+    elif not raises and not vs:
         shown = [l for l in term.lines() if l]
         if not shown or " End" not in shown[-1][-(len(" End") + (12 if cfg.get("verbose") else 0)):] and not shown[-1].split(" (")[0].endswith(" End"):
             vs.append(report.viol("end-frame-not-last", "normal exit: last frame shown is %r" % (shown[-1] if shown else None), {}, " <indicator> End", shown[-3:]))
@@ -294,6 +303,9 @@ def main():
         cfgs.append(dict(name=name, body=body, ansi=True, interval=100, verbose=True, fine=False, bound=2))
         # line-level scheduling points inside progress_indicator.py
         cfgs.append(dict(name=name, body=body, ansi=True, interval=100, verbose=False, fine=True, bound=2))
+        if name in ("empty", "sleep", "msg-raise", "sleep-raise-kbd"):
+            # a quiet error output: nothing is drawn, the life cycle of the spinner and the body's exception are the same
+            cfgs.append(dict(name=name, body=body, ansi=True, interval=100, verbose=False, fine=False, quiet=True, bound=2))
 
     # determinism self-check: one recorded schedule replayed twice must give identical observations
     probe = dict(body=BODIES_QUICK[3][1], ansi=True, interval=100, verbose=False, fine=False)
@@ -317,7 +329,7 @@ def main():
         execs += stats["execs"]
         outcomes += stats["distinct_outcomes"]
         nontrivial += sum(n for k, n in stats["by_preemptions"].items() if k > 0)
-        key = "%s/%s/i%d%s%s" % (cfg["name"], "ansi" if cfg["ansi"] else "plain", cfg["interval"], "/verbose" if cfg["verbose"] else "", "/lines" if cfg["fine"] else "")
+        key = "%s/%s/i%d%s%s" % (cfg["name"], "ansi" if cfg["ansi"] else "plain", cfg["interval"], "/verbose" if cfg["verbose"] else "", ("/lines" if cfg["fine"] else "") + ("/quiet" if cfg.get("quiet") else ""))
         rep.part(key, preemption_bound=bound, schedules=stats["execs"], by_preemptions=stats["by_preemptions"],
                  max_points=stats["max_points"], distinct_outcomes=stats["distinct_outcomes"])
     rep.sample({"cfg": probe, "choices": ch, "writes": [list(x) for x in obs2[0]][:12]})
